@@ -258,6 +258,23 @@ CHECKS['C17']['text'] += (" Every builder of a runtime field description copies 
 CHECKS['C18']['text'] += " In the simulator every write guarded by the per-shot logging switch goes to the log only; the switch is set by the constructor only."
 CHECKS['C19']['text'] += " The search-path preference is exactly: name parts non-empty and first part == \"bloch\" (conjunct-wise); first hit decided path-sensitively."
 
+CHECKS['C02']['text'] += " Sweep schemes recognised exactly: flat, block-wise, half-wise, and pair enumeration by bit deposit (k split around 2^q − 1, checked)."
+CHECKS['C07']['text'] += " Static storage is filled with typed defaults of the declared kind (R07.10)."
+CHECKS['C08']['text'] += (" Typed defaults per declared kind; the runtime signature label is injective over all 18 parameter kinds (evaluated through its switch and the "
+                          "labelling function it delegates to); no statement stores a default-constructed Value into a declared slot (destroy leaves a null reference that keeps the stamp); "
+                          "result-less activations (constructor bodies) empty the return slot.")
+CHECKS['C10']['text'] += " The step from a class to its base in the layout walk does not depend on whether the base is written with type arguments."
+CHECKS['C11']['text'] += (" R11.5: the sweep never decides when an object it does not reclaim is destroyed — unreachable objects excluded from the sweep by a class flag are collected in a set, "
+                          "closed under 'refers to a member' by a fixpoint over every kind of object reference (skipped only by the end-of-run collection), and marked with all they reach before the selection.")
+CHECKS['C13']['text'] += " Type-parameter bounds are resolved in the scope of the class's own parameters."
+CHECKS['C14']['text'] += (" Declaration look-ahead evaluated abstractly on >100 statement-start token patterns: every non-type token kind inside `<…>` must yield 'expression', "
+                          "every type token kind (incl. qualified names, arrays, nested lists) must yield 'declaration'.")
+CHECKS['C15']['text'] += " Every move of the lexer cursor goes through the line/column-tracking advance (no raw position increments)."
+CHECKS['C16']['text'] += (" R16.F sibling agreement: every constructor-argument check instantiates the generic parameter list before costing (one known finding: super(...) "
+                          "against a generic base).")
+CHECKS['C17']['text'] += " Result-less activations (constructor bodies) empty the return slot too."
+CHECKS['C18']['text'] += " The evaluator's copy of the switch guards no state change of evaluator or simulator either."
+
 NOT_YET = "check not yet built in this round (framework under construction; see DESIGN.md §4 for the planned static rules)"
 
 
